@@ -293,14 +293,20 @@ def signalD (s : State) (c : Nat) : State :=
   let s2 := if s1.apc = .gone .blocked c then setC s1 .app (.gone .wakeD c) else s1
   if s2.lpc = .gone .blocked c then setC s2 .lis (.gone .wakeD c) else s2
 
-/-- the client the iterator steps to: the first linked, not closed client below `bound`
-(the list is ordered by decreasing id: rfbNewClient inserts at the head) -/
-def pickBelow (s : State) : Nat → Option Nat
+/-- the client the iterator steps to: the first linked client below `bound` (the list is ordered by
+decreasing id: rfbNewClient inserts at the head); rfbGetClientIterator skips the clients whose socket
+is closed already, rfbGetClientIteratorWithClosed (`closedToo`) does not -/
+def pickBelow (s : State) (closedToo : Bool) : Nat → Option Nat
   | 0 => none
-  | k + 1 => if (s.cl k).linked && (s.cl k).sockOpen then some k else pickBelow s k
+  | k + 1 => if (s.cl k).linked && (closedToo || (s.cl k).sockOpen) then some k else pickBelow s closedToo k
 
-def pick (s : State) (prev : Option Nat) : Option Nat :=
-  pickBelow s (match prev with | some p => p | none => s.n)
+def pick (s : State) (closedToo : Bool) (prev : Option Nat) : Option Nat :=
+  pickBelow s closedToo (match prev with | some p => p | none => s.n)
+
+/-- rfbShutdownServer and rfbScreenCleanup walk the list with rfbGetClientIteratorWithClosed -/
+def Proc.closedToo : Proc → Bool
+  | .shutdown | .cleanup => true
+  | _ => false
 
 def procOfApi : Api → Proc
   | .mark | .copy => .mark
@@ -336,7 +342,7 @@ def iterSucc (s : State) (t : Tid) (p : Proc) (st : ISt) (prev nxt : Option Nat)
     | none => []
     | some s1 =>
       let s2 := match prev with | some q => touch s1 q | none => s1
-      let nx := pick s2 prev
+      let nx := pick s2 p.closedToo prev
       [(.lock .L 0, setC s2 t (.iter p (match nx with | some _ => .incLock | none => .unlockL) prev nx))]
   | .incLock =>
     match nxt with
@@ -385,7 +391,10 @@ def bodySucc (s : State) (t : Tid) (p : Proc) (k : Nat) (c : Nat) : List (Lbl ×
     let s1 := touch s c
     [(.tau, setC s1 t (if (s1.cl c).st = .normal then .body p 1 c else nextIter p c))]
   | .send, 1 => (doLock s t .S c).toList.map fun s1 => (.lock .S c, setC s1 t (.body p 2 c))
-  | .send, 2 => (doLock s t .O c).toList.map fun s1 => (.lock .O c, setC s1 t (.body p 3 c))
+  | .send, 2 =>
+    ((doLock s t .O c).toList.map fun s1 => (.lock .O c, setC s1 t (.body p 3 c))) ++
+    -- rfbSendServerCutTextUTF8 without extended clipboard and without Latin-1 fallback: nothing to write
+    [(.unlock .S c, setC (doUnlock s t .S c) t (nextIter p c))]
   | .send, 3 =>
     let s1 := doUnlock s t .O c
     [(.unlock .O c, setC s1 t (.body p 2 c)),      -- another rfbWriteExact
